@@ -243,11 +243,13 @@ func (fs *LocalFS) initForReading() {
 func (fs *LocalFS) startSerializer() {
 	go func() {
 		err := filepath.Walk(fs.Root, func(path string, info os.FileInfo, err error) error {
-			if fs.dev != 0 && info.IsDir() {
-				// one-file-system is set, skip other filesystems
+			if fs.dev != 0 && info != nil && info.IsDir() {
+				// one-file-system is set, skip other filesystems. The directory
+				// must not be walked into either, its entries would arrive
+				// without their parent.
 				st, ok := info.Sys().(*syscall.Stat_t)
 				if ok && uint64(st.Dev) != fs.dev {
-					return nil
+					return filepath.SkipDir
 				}
 			}
 			fs.entries <- walkEntry{path, info, err}
